@@ -41,6 +41,10 @@ fn urg(u: SnapshotUrgency) -> Urg {
 
 /// Install the point in a real server and observe the urgency of one real AddVersion.
 pub fn observe(p: &Point) -> Result<Urg, String> {
+    observe_with(p, true)
+}
+
+fn observe_with(p: &Point, subsecond: bool) -> Result<Urg, String> {
     let dir;
     let factory = if p.sqlite {
         dir = Some(TempDir::new("c12"));
@@ -53,6 +57,7 @@ pub fn observe(p: &Point) -> Result<Urg, String> {
     let storage: Arc<dyn Storage> = factory().map_err(|e| format!("opening storage: {e:#}"))?.served;
     let c = case::client_uuid(12, 0);
     let v1 = case::fresh_uuid(1);
+    let mut stamped: Option<chrono::DateTime<chrono::Utc>> = None;
     (|| -> anyhow::Result<()> {
         let mut t = storage.txn(c)?;
         t.new_client(Uuid::nil())?;
@@ -61,7 +66,23 @@ pub fn observe(p: &Point) -> Result<Urg, String> {
             let now = chrono::Utc::now();
             let since_midnight = now.timestamp().rem_euclid(86400);
             let within = [3600, 13 * 3600, 23 * 3600 + 1800, (since_midnight + 30).min(86399)][(p.since % 4) as usize];
-            let ts = now - chrono::Duration::seconds(days * 86400 + within);
+            let mut ts = now - chrono::Duration::seconds(days * 86400 + within);
+            // where the backend keeps fractions of a second (memory): also 350 ms short of the
+            // next whole day, and 2 ms past this one - with the fraction of the stamp's second
+            // later, resp. earlier, than that of the moment the version is accepted
+            if subsecond && !p.sqlite && days.abs() < MAX_DAYS {
+                match p.since % 6 {
+                    4 => {
+                        ts = now - chrono::Duration::seconds((days + 1) * 86400) + chrono::Duration::milliseconds(350);
+                        stamped = Some(ts);
+                    }
+                    5 => {
+                        ts = now - chrono::Duration::seconds(days * 86400) - chrono::Duration::milliseconds(2);
+                        stamped = Some(ts);
+                    }
+                    _ => {}
+                }
+            }
             t.set_snapshot(Snapshot { version_id: v1, timestamp: ts, versions_since: p.since }, vec![9, 9])?;
         }
         t.commit()
@@ -70,6 +91,12 @@ pub fn observe(p: &Point) -> Result<Urg, String> {
     let cfg = Cfg { snapshot_days: p.snapshot_days, snapshot_versions: p.snapshot_versions };
     let server = Server::new(server_config(&cfg), ArcStorage(storage.clone()));
     let r = std::panic::catch_unwind(std::panic::AssertUnwindSafe(|| server.add_version(c, v1, vec![4, 5, 6])));
+    if let (Some(ts), Some(days)) = (stamped, p.days) {
+        // a slow machine: the age is no longer the intended one - observe with a stamp well inside the day
+        if (chrono::Utc::now() - ts).num_days() != case::observed_age_days(days) {
+            return observe_with(p, false);
+        }
+    }
     match r {
         Err(p) => Err(format!(
             "AddVersion panicked: {}",
@@ -294,7 +321,7 @@ pub fn run(tier: Tier, seed: u64) -> Report {
         "exploration",
         "(1) threshold function: generated (snapshot_days, snapshot_versions, age in days, versions since) tuples - targets from {0,1,odd,even,2^k+-1,MAX/3+-1,MAX/2+-1,2MAX/3+-1,MAX-1,MAX} and random, measures around each threshold and at the extremes - each installed in a real server through the storage API and observed through one real AddVersion; oracle: the band stated in the property in 128-bit arithmetic (both low and high accepted at the one integer point per odd target where 1.5x target is not an integer), no panic, no error; plus a fixed grid of dangerous points. (2) metamorphic: growing either measure never lowers the urgency. (3) counters from real histories with small targets and aged snapshots on both backends and through HTTP. Non-trivial: within 2 of a threshold, or a target above MAX/3 of its type, or target 0/1/odd; distinct by tuple.",
     );
-    rep.assume("snapshot age is installed by rewriting the snapshot time through StorageTxn::set_snapshot to now - d*86400 s - (1 h | 13 h | 23.5 h | back to just before the last UTC midnight), so num_days() is exactly d wherever in the day the snapshot falls");
+    rep.assume("snapshot age is installed by rewriting the snapshot time through StorageTxn::set_snapshot to now - d*86400 s - (1 h | 13 h | 23.5 h | back to just before the last UTC midnight), so num_days() is exactly d wherever in the day the snapshot falls; in memory (which keeps fractions of a second) also 350 ms short of the next whole day and 2 ms past this one");
     rep.assume("ages are bounded by what chrono can represent (90 million days); versions-since by u32::MAX-1");
     let r = engine::replay_dir::<Point, _>("C12", "point", check_point);
     rep.absorb("replay-tier-point", r);
